@@ -25,6 +25,17 @@ def r6_1_calculator(ctx, prog):
             if d_ == "top:m.rc":
                 z = 1 if str(v_) == "0" else 0
                 one = 1 if str(v_) == "1" else (one if z else 0)
+        if z is None:
+            # any other spelling (`self.rc.checked_sub(1)?`, `remaining == 0`, `rc < 2`): the tests on the counter are linear
+            # comparisons with constants; the counter values they admit decide the class
+            adm = _admitted_counter_values(pa.guards(), pa.switches(), "top:m.rc")
+            if adm is not None:
+                if adm == {0}:
+                    z, one = 1, 0
+                elif adm == {1}:
+                    z, one = 0, 1
+                elif adm and min(adm) >= 2 and set(range(2, 9)) <= adm:
+                    z, one = 0, 0
         r = C.expr_of(pa, pa.ret)
         w = {x[2][0]: C.expr_of(pa, x[3]) for x in pa.writes if x[1] == "m" and len(x[2]) == 1}
         n += 1
@@ -75,6 +86,47 @@ def r6_1_calculator(ctx, prog):
                 if s["k"] == "assign" and s["rv"]["k"] == "use" and s["rv"]["op"]["k"] == "const" and "named" in s["rv"]["op"]:
                     used.add(s["rv"]["op"]["named"].split("::")[-1])
         ctx.ob("R6.1", "config-defaults", {"DEFAULT_RTO", "DEFAULT_RC", "DEFAULT_RM"} <= used, "RttConfig::default uses %s" % sorted(used), cfgs[0].where())
+
+
+def _admitted_counter_values(guards, switches, leaf, upto=9):
+    """the values 0..upto of `leaf` that satisfy every test of the path; None when a test on it is not a comparison of a
+    linear form with a constant"""
+    def ev(e, x):
+        if e == leaf:
+            return x
+        if isinstance(e, int) and not isinstance(e, bool):
+            return e
+        if isinstance(e, tuple) and len(e) == 3 and e[0] in ("op:Sub", "op:Add"):
+            a, b = ev(e[1], x), ev(e[2], x)
+            if a is None or b is None:
+                return None
+            return a - b if e[0] == "op:Sub" else a + b
+        return None
+    rel = {"Eq": lambda a, b: a == b, "Ne": lambda a, b: a != b, "Lt": lambda a, b: a < b, "Le": lambda a, b: a <= b,
+           "Gt": lambda a, b: a > b, "Ge": lambda a, b: a >= b}
+    adm = set(range(0, upto + 1))
+    for op, a, b, v in guards:
+        if leaf not in repr(a) + repr(b):
+            continue
+        if op not in rel:
+            return None
+        keep = set()
+        for x in adm:
+            va, vb = ev(a, x), ev(b, x)
+            if va is None or vb is None:
+                return None
+            if va < 0 or vb < 0:
+                continue                 # an unsigned subtraction that would have overflowed: not on this path
+            if rel[op](va, vb) == bool(v):
+                keep.add(x)
+        adm = keep
+    for d_, v_ in switches:
+        if d_ == leaf:
+            if str(v_).isdigit():
+                adm &= {int(v_)}
+            else:
+                return None
+    return adm
 
 
 def r6_2_manager(ctx, prog):
